@@ -1434,15 +1434,32 @@ def do_hist_op(op):
     x = xd()
     k = op["k"]
     corpus = os.path.join(os.environ.get("VERIF_REPO", "/repo"), "test")
+
+    def fpath(f):
+        # "@gen/..." = files the driver generated into the shared scratch directory
+        if f.startswith("@"):
+            return os.path.join(os.environ.get("VF_SCRATCH", "/tmp"), f[1:])
+        return os.path.join(corpus, f)
     try:
+        if k == "load_cut":
+            data = open(fpath(op["f"]), "rb").read()
+            n = max(0, min(len(data), int(len(data) * op["cut"] / 100.0)))
+            p = os.path.join(scratch_dir(), "cut.pyc")
+            with open(p, "wb") as fh:
+                fh.write(data[:n])
+            try:
+                t = x.load.load_module(p)
+            except BaseException as e:      # noqa
+                return {"raised": type(e).__name__, "msg": _norm_addr(str(e).replace(p, "<cut>"))[:120]}
+            return {"header": [list(t[0]), t[1], t[2], bool(t[4]), t[5], t[6]], "tree": _digest(xcanon(t[3], tuple(t[0]) < (3, 0)))}
         if k == "load":
-            t = x.load.load_module(os.path.join(corpus, op["f"]))
+            t = x.load.load_module(fpath(op["f"]))
             py2 = tuple(t[0]) < (3, 0)
             return {"header": [list(t[0]), t[1], t[2], bool(t[4]), t[5], t[6]], "tree": _digest(xcanon(t[3], py2))}
         if k == "dis":
             import io
             out = io.StringIO()
-            x.disasm.disassemble_file(os.path.join(corpus, op["f"]), out, op["fmt"])
+            x.disasm.disassemble_file(fpath(op["f"]), out, op["fmt"])
             txt = _norm_addr(out.getvalue())
             return {"text": _digest(txt), "lines": txt.count("\n")}
         if k == "opc":
@@ -1460,7 +1477,7 @@ def do_hist_op(op):
                 return {"r": q[1] in api.hasconst, "n": q[1] in api.hasname, "ha": api.HAVE_ARGUMENT, "ea": api.EXTENDED_ARG}
             return {"r": None}
         if k == "bc":
-            t = x.load.load_module(os.path.join(corpus, op["f"]))
+            t = x.load.load_module(fpath(op["f"]))
             opc = x.disasm.get_opcode(t[0], t[4])
             ins = [[i.offset, i.opname, i.arg, _norm_addr(repr(i.argval)), i.is_jump_target, i.starts_line]
                    for i in x.bytecode.Bytecode(t[3], opc)]
@@ -1726,6 +1743,47 @@ def op_x_hostile(req):
                 bad.append({"spec": cspec if "hex" in cspec or len(data) > 4096 else {"hex": hx(data)}, "len": len(data),
                             "problems": problems, "native": native})
     return {"n": n, "reached": reached, "kinds": kinds, "bad": bad}
+
+
+def op_x_lines_host(req):
+    """C05 on this host: line starts of native code objects and of their portable copies against the host's dis"""
+    import dis
+    x = xd()
+    try:
+        top = compile(req["src"], "<c05>", "exec", 0, True)
+    except (SyntaxError, ValueError, OverflowError, RecursionError, MemoryError) as e:
+        return {"reject": "%s: %s" % (type(e).__name__, e)}
+    opc = x.op_imports.get_opcode_module(sys.version_info, None)
+    fails = []
+    n = 0
+    for i, co in enumerate(walk_codes(top)):
+        n += 1
+        ref = [list(t) for t in dis.findlinestarts(co)]
+        for what, f in (("opc.findlinestarts(native)", lambda: opc.findlinestarts(co)),
+                        ("xdis.findlinestarts(native)", lambda: x.findlinestarts(co)),
+                        ("std.findlinestarts(native)", lambda: x.std.findlinestarts(co)),
+                        ("opc.findlinestarts(codeType2Portable(native))", lambda: opc.findlinestarts(x.codetype.codeType2Portable(co))),
+                        ("opc.findlinestarts(load_code(marshal.dumps(native)))",
+                         lambda: opc.findlinestarts(x.unmarshal.load_code(marshal.dumps(co), x.magics.PYTHON_MAGIC_INT)))):
+            try:
+                got = [list(t) for t in f()]
+            except Exception as e:
+                fails.append(["%s|raised|%s" % (what, type(e).__name__), "co%d %s: %s raised %s" % (i, co.co_name, what, e)])
+                continue
+            if got != ref:
+                fails.append([what, "co%d %s: %s = %s, dis.findlinestarts = %s" % (i, co.co_name, what, got[:6], ref[:6])])
+        if len(co.co_code) <= 1200:
+            try:
+                p = x.codetype.codeType2Portable(co)
+                want = dict((a, b) for a, b in ref)
+                for ins in x.bytecode.Bytecode(p, opc, dup_lines=False):
+                    if ins.opname != "CACHE" and ins.starts_line != want.get(ins.offset):
+                        fails.append(["starts_line(portable copy)", "co%d %s at %d: starts_line %r, dis %r" % (
+                            i, co.co_name, ins.offset, ins.starts_line, want.get(ins.offset))])
+                        break
+            except Exception as e:
+                fails.append(["starts_line(portable copy)|raised|%s" % type(e).__name__, "co%d: %s" % (i, e)])
+    return {"fails": fails, "codes": n}
 
 
 def op_x_std_api(req):
